@@ -286,7 +286,7 @@ impl Scenario for Cache {
         "exploration"
     }
     fn rule(&self) -> &'static str {
-        "Seeded histories (3-40 ops) of put/put_with_ttl/get/contains/remove/clear/size/stats/advance(+recreate for disk) on the real MemoryCache (5 eviction policies, max_entries 1..1000, max_memory_bytes None/1..1000, values 0..2x the byte limit, key population > capacity; keys spelled k<i>, or in one run in three obj.<i> / versions-1.15.<i> / k<i> + k<i>.idx - equal up to their last dot, or one a prefix of the other) and the real DiskCache (with/without sub-directories, with/without background tasks) under the virtual clock. Every read is judged against a map-with-expiry model ('latest value or nothing', nothing only if expired/removed/possibly evicted); bounds after every op; reported size/usage vs. what a probe of every key retrieves at the end; disk: a new instance must serve until the TTL ends and not after. Non-trivial = >= 2 state-changing ops; distinct = hash of (config, ops, observed results)."
+        "Seeded histories (3-40 ops) of put/put_with_ttl/get/contains/remove/clear/size/stats/advance(+recreate for disk) on the real MemoryCache (5 eviction policies, max_entries 1..1000, max_memory_bytes None/1..1000, values 0..2x the byte limit, key population > capacity; on disk one run in 150 with one value of 16 MiB -1/+0/+1/+4096 bytes (the large-file read path); keys spelled k<i>, or in one run in three obj.<i> / versions-1.15.<i> / k<i> + k<i>.idx - equal up to their last dot, or one a prefix of the other) and the real DiskCache (with/without sub-directories, with/without background tasks) under the virtual clock. Every read is judged against a map-with-expiry model ('latest value or nothing', nothing only if expired/removed/possibly evicted); bounds after every op; reported size/usage vs. what a probe of every key retrieves at the end; disk: a new instance must serve until the TTL ends and not after. Non-trivial = >= 2 state-changing ops; distinct = hash of (config, ops, observed results)."
     }
     fn assumptions(&self) -> Vec<&'static str> {
         vec![
@@ -376,6 +376,19 @@ impl Scenario for Cache {
                 _ => Op::Recreate,
             };
             ops.push(op);
+        }
+        // the disk cache reads files of 16 MiB and more through a path of its own: one disk run in 150 makes one
+        // of its puts that large (drawn after everything else)
+        if disk && rng.chance(1, 150) {
+            let big = (16usize << 20) + *rng.pick(&[0usize, 1, 4096]) - if rng.chance(1, 4) { 1 } else { 0 };
+            let puts: Vec<usize> = ops.iter().enumerate().filter(|(_, o)| matches!(o, Op::Put { .. } | Op::PutTtl { .. })).map(|(i, _)| i).collect();
+            if !puts.is_empty() {
+                let at = puts[rng.usize_below(puts.len())];
+                match &mut ops[at] {
+                    Op::Put { len, .. } | Op::PutTtl { len, .. } => *len = big,
+                    _ => {}
+                }
+            }
         }
         // the spelling of the keys is drawn last (the rest of the case does not depend on it)
         let key_style = if rng.chance(1, 3) { rng.range(1, 3) as u8 } else { 0 };
